@@ -32,6 +32,11 @@ def nested_delegation(tr, outcome, raised, env, ex, s):
     conds = [_t(args[0]) == smt.attr_func("graph")(node),          # the wrapped graph itself ...
              _t(args[1]) == inner,                                   # ... with the TRANSLATED inputs
              _t(call.get("self")) == smt.attr_func("runner")(env["self"].t)]  # ... through the SAME runner
+    # C12: the inner run / map is parented to the span it was launched from and reports to the same processors
+    kw0 = call.get("kwargs", {})
+    if _t(kw0.get("_parent_span_id")) is None or _t(kw0.get("event_processors")) is None:
+        return False
+    conds += [_t(kw0["_parent_span_id"]) == _t(env["parent_span_id"]), _t(kw0["event_processors"]) == _t(env["event_processors"])]
     mapping = ex.eval_clause("bool(node.map_config)", s)
     if maps:
         kw = call.get("kwargs", {})
@@ -51,12 +56,12 @@ def nested_delegation(tr, outcome, raised, env, ex, s):
 
 CONTRACTS = {
     SG + "__call__": dict(
-        props=["C05", "C10"],
+        props=["C05", "C10", "C12"],
         params={"self": ANY, "node": OBJ("GraphNode"), "state": OBJ("GraphState"), "inputs": DICT(STR, ANY), "event_processors": ANY, "parent_span_id": OPT(STR)},
         returns=DICT(STR, ANY),
         requires=["distinct_names(node.outputs)"],   # object-model fact: a node's output names are pairwise distinct
         may_raise={"BaseException": True},
-        trace=[{"name": "C05/C10 one inner run (or map) of the wrapped graph by the same runner, on the translated inputs; outputs translated back (lists collected for a mapping node)",
+        trace=[{"name": "C05/C10 one inner run (or map) of the wrapped graph by the same runner, on the translated inputs, parented to the launching span (C12); outputs translated back (lists collected for a mapping node)",
                 "check": nested_delegation}],
     ),
     AG + "_handle_nested_result": dict(
@@ -70,12 +75,12 @@ CONTRACTS = {
         ensures=["result == node.map_outputs_from_original(old(result).values)"],
     ),
     AG + "__call__": dict(
-        props=["C05", "C10", "C14"],
+        props=["C05", "C10", "C12", "C14"],
         params={"self": OBJ("AsyncGraphNodeExecutor"), "node": OBJ("GraphNode"), "state": OBJ("GraphState"), "inputs": DICT(STR, ANY), "event_processors": ANY, "parent_span_id": OPT(STR)},
         returns=DICT(STR, ANY),
         requires=["distinct_names(node.outputs)"],   # object-model fact: a node's output names are pairwise distinct
         may_raise={"BaseException": True},
-        trace=[{"name": "C05/C10 one inner run (or map) of the wrapped graph by the same runner, on the translated inputs; the result goes through _handle_nested_result (lists collected for a mapping node)",
+        trace=[{"name": "C05/C10 one inner run (or map) of the wrapped graph by the same runner, on the translated inputs, parented to the launching span (C12); the result goes through _handle_nested_result (lists collected for a mapping node)",
                 "check": nested_delegation}],
     ),
 }
